@@ -16,7 +16,7 @@ CHECK = {
           {"checks": 30000, "shards": 2, "timeout": 300},
           {"checks": 400000, "shards": 4, "timeout": 1500}),
         T("isolation", "TestC12BuildDirectoryCreators",
-          {"checks": 2500, "shards": 4, "timeout": 300},
+          {"checks": 2000, "shards": 4, "timeout": 300},
           {"checks": 25000, "shards": 8, "timeout": 1500}),
         T("isolation", "TestC12CleanRunner",
           {"checks": 30000, "shards": 2, "timeout": 300},
